@@ -335,9 +335,18 @@ func (V *Verifier) checkProperty(prop string, verbose bool, t0 time.Time) int {
 		}
 	}
 	rc := 0
+	knownSeen := map[string]bool{}
 	for _, o := range known {
 		s, _ := kf.isOpen(prop, o.Name)
-		fmt.Printf("KNOWN-FINDING: property=%s %s (obligation %s)\n", prop, s, o.Name)
+		base := o.Name
+		if i := strings.Index(base, "@"); i >= 0 {
+			base = base[:i]
+		}
+		if knownSeen[base] { // one line per finding; the paths on which it shows are in the evidence file
+			continue
+		}
+		knownSeen[base] = true
+		fmt.Printf("KNOWN-FINDING: property=%s %s (obligation %s)\n", prop, s, base)
 	}
 	for _, u := range undecided {
 		fmt.Printf("UNDECIDED function=%s reason=%s\n", u.Fn, u.Reason)
